@@ -392,7 +392,9 @@ TRUSTED = [
     "pyvc's encoding of the Python subset; z3/cvc5 (sequence and regular-expression theories; every `sat` model is re-checked)",
     "the regex engine implements the textbook semantics of the shapes used by the token constants (classes, literals, alternation, greedy repeats, look-ahead)",
     "replay/metaspec.py's reader of meta.pest and its denotation function are the executable reading of the property statement (independent of the front end; cross-checked against it on meta.pest itself)",
-    "scanner-producible token sequences satisfy two adjacency facts used as precondition of the parser proof (no CHOICE_OP directly after an infix or prefix operator, no TAG directly after a prefix operator): validated by the differential, not proved",
+    "scanner-producible token sequences satisfy two adjacency facts used as precondition of the parser proof (no CHOICE_OP directly after an infix or prefix operator, no TAG directly after a prefix operator) and a MODIFIER token carries one of the four modifier symbols (RE_MODIFIER, lex.modifier.language): validated by the differential, not proved for the scanner's state functions",
+    "the token-layer contract pins the representation the code builds (n-ary flattened Sequence/Choice, tag on the primary or outermost prefix node, PEEK slice bounds as the token texts); dict semantics of the rule table (a later rule of the same name replaces the earlier) is Python's",
+    "unescape_string is used through C12's contract (decoded value or PestGrammarSyntaxError); int() of a NUMBER token is str.to_int (digits only, by lex.number.language)",
 ]
 ASSUMPTIONS = [
     "maximal munch: when a token regex matches at a position it ends where the production ends (validated exhaustively on strings of class representatives, bounded)",
